@@ -156,6 +156,8 @@ pub struct Prog {
     pub local_call: bool,
     /// needs a non-empty metadata buffer (Mbuff kind) of at least this many bytes
     pub min_mbuff: usize,
+    /// access width of packet probes (1, 2, 4 or 8 bytes)
+    pub w: u8,
 }
 
 impl Prog {
@@ -175,6 +177,7 @@ impl Prog {
         o["p0"] = self.p0.into();
         o["p1"] = self.p1.into();
         o["local_call"] = self.local_call.into();
+        o["w"] = self.w.into();
         o["asm"] = disasm(&self.bytes).into();
         o
     }
@@ -193,6 +196,7 @@ impl Prog {
             p0: v["p0"].as_i64()?,
             p1: v["p1"].as_i64()?,
             local_call: v["local_call"].as_bool()?,
+            w: v["w"].as_u8().unwrap_or(1),
         })
     }
 }
@@ -267,7 +271,7 @@ impl B {
 }
 
 fn mk(bytes: Vec<u8>, tag: u8, class: Class) -> Prog {
-    Prog { bytes, tag, class, min_pkt: 0, offsets: None, p0: 0, p1: 0, local_call: false, min_mbuff: 0 }
+    Prog { bytes, tag, class, min_pkt: 0, offsets: None, p0: 0, p1: 0, local_call: false, min_mbuff: 0, w: 1 }
 }
 
 pub fn gen_const(rng: &mut Rng, tag: u8) -> Prog {
@@ -481,25 +485,40 @@ pub fn gen_slot_plain(tag: u8, doff: usize, eoff: usize) -> Prog {
     p
 }
 
-pub fn gen_probe_pkt_abs(tag: u8, idx: usize) -> Prog {
+fn ld_opcode(base: u8, w: u8) -> u8 {
+    // BPF_LD | size | mode: size W=0x00, H=0x08, B=0x10, DW=0x18
+    base & 0xe7
+        | match w {
+            1 => 0x10,
+            2 => 0x08,
+            4 => 0x00,
+            _ => 0x18,
+        }
+}
+
+/// ld_abs of `w` bytes at packet offset idx. The interpreter bounds-checks 8 bytes whatever the
+/// width, so the probe is only ever run on packets of at least idx + 8 bytes.
+pub fn gen_probe_pkt_abs(tag: u8, idx: usize, w: u8) -> Prog {
     let mut b = B::new(tag);
-    b.i(LD_ABS_B, 0, 0, 0, idx as i32);
+    b.i(ld_opcode(LD_ABS_B, w), 0, 0, 0, idx as i32);
     b.trailer(tag);
     let mut p = mk(b.v, tag, Class::ProbePktAbs);
     p.p0 = idx as i64;
     p.min_pkt = idx + 8;
+    p.w = w;
     p
 }
 
-pub fn gen_probe_pkt_ind(tag: u8, idx: usize, regval: usize) -> Prog {
+pub fn gen_probe_pkt_ind(tag: u8, idx: usize, regval: usize, w: u8) -> Prog {
     let mut b = B::new(tag);
     b.i(MOV64_IMM, 3, 0, 0, regval as i32);
-    b.i(LD_IND_B, 0, 3, 0, idx as i32);
+    b.i(ld_opcode(LD_IND_B, w), 0, 3, 0, idx as i32);
     b.trailer(tag);
     let mut p = mk(b.v, tag, Class::ProbePktInd);
     p.p0 = idx as i64;
     p.p1 = regval as i64;
     p.min_pkt = idx + regval + 8;
+    p.w = w;
     p
 }
 
